@@ -48,6 +48,16 @@ func pipeOpts(mode string) gen.Opts {
 	switch mode {
 	case "text-mut":
 		return pipeOpts("text")
+	case "text2-mut":
+		return pipeOpts("text2")
+	case "text2": // text with comments of every form, number-like labels and boundary style values
+		o := pipeOpts("text")
+		o.Comments, o.NumberLabels, o.Boundary, o.EdgeLinks = true, true, true, true
+		return o
+	case "render2": // render with boundary style values on shapes and connections, links on connections, 3d/multiple with outside labels
+		o := pipeOpts("render")
+		o.Boundary, o.EdgeLinks, o.Label3D, o.LabelPos = true, true, true, true
+		return o
 	case "text": // compile-level families: names and labels with every kind of character
 		return gen.Opts{MaxObjs: 6, MaxEdges: 4, Tricky: true, Containers: true, Styles: true, Classes: true, Boards: true, Markdown: true, Direction: true, Grid: true, Sequence: true, Near: true, Sizes: true}
 	case "layout":
@@ -62,6 +72,10 @@ func pipeOpts(mode string) gen.Opts {
 		return gen.Opts{MaxObjs: 2, MaxEdges: 1, Sequence: true, SpecialOnly: "sequence", CrossEdges: true}
 	case "near":
 		return gen.Opts{MaxObjs: 4, MaxEdges: 3, Containers: true, Near: true, SpecialOnly: "near", Sizes: true, LabelPos: true}
+	case "render2-plain":
+		o := pipeOpts("render2")
+		o.Tricky = false
+		return o
 	case "render-plain": // the same diagrams as "render" without special characters: the marker-free twin the SVG vocabulary is learnt from
 		o := pipeOpts("render")
 		o.Tricky = false
@@ -381,7 +395,10 @@ func pipeRun(in pipeInput, stages map[string]bool) (evs []tr.M, nt []string) {
 	if d != nil {
 		feats = append(feats, d.Feats...)
 	}
-	if strings.HasSuffix(in.Mode, "-mut") && in.Text == "" {
+	if in.Mode == "text2-mut" && in.Text == "" {
+		text = valueShapeAt(in.Seed)
+		feats = append(feats, "value-shape")
+	} else if strings.HasSuffix(in.Mode, "-mut") && in.Text == "" {
 		r := rand.New(rand.NewSource(in.Seed*31 + 7))
 		if r.Intn(3) == 0 {
 			text = valueShapes(r) + text
@@ -661,11 +678,39 @@ func mutate(s string, r *rand.Rand) string {
 
 // valueShapes declares reserved keywords and configuration keys with every value shape (scalar, map,
 // array, null, nested map) in positions where the grammar allows any value: "a map where a colour is expected".
+var vsShapes = []string{"x", "1", "true", "null", "{a: b}", "{a: {b: c}}", "[1; 2]", "[]", "{}", "\"\"", "${nope}", "*", "|md x|", "@nofile", "...@nofile",
+	"layers", "scenarios", "steps", "layers.x", "layers.x.scenarios", "_.layers", "_", "_._", "root.layers.x", "layers.x.y.z", "steps.1.steps", "style", "classes.x", "vars.x", "a -> b", "(a -> b)[0]"}
+var vsKeys = []string{"shape", "label", "style", "style.fill", "style.opacity", "style.3d", "icon", "link", "tooltip", "near", "width", "height", "top", "left", "direction",
+	"grid-rows", "grid-columns", "grid-gap", "class", "classes", "vars", "constraint", "source-arrowhead", "target-arrowhead", "label.near", "icon.near", "layers", "scenarios", "steps"}
+var vsCfg = []string{"theme-id", "dark-theme-id", "pad", "sketch", "center", "layout-engine", "theme-overrides", "dark-theme-overrides", "data", "theme-overrides.N1", "theme-overrides.B1", "dark-theme-overrides.AA2", "unknown-key"}
+
+// valueShapeAt is the systematic counterpart of valueShapes: program #seed holds exactly one declaration of a
+// reserved keyword or configuration key (one, because any error ends compilation before the later passes),
+// in one of four places, followed by a fixed valid tail with boards; all key x value x place combinations are
+// spread over the seeds by a multiplicative permutation.
+func valueShapeAt(seed int64) string {
+	nk, nv, nc := len(vsKeys), len(vsShapes), len(vsCfg)
+	total := nk*nv*4 + nc*nv
+	i := int((uint64(seed) * 2654435761) % uint64(total))
+	tail := "yy\nlayers: {x: {y}}\nscenarios: {s: {z}}\n"
+	if i >= nk*nv*4 {
+		i -= nk * nv * 4
+		return fmt.Sprintf("vars: {d2-config: {%s: %s}}\n", vsCfg[i/nv], vsShapes[i%nv]) + tail
+	}
+	place, k, v := i%4, vsKeys[(i/4)/nv], vsShapes[(i/4)%nv]
+	switch place {
+	case 0:
+		return fmt.Sprintf("zz.%s: %s\n", k, v) + tail
+	case 1:
+		return fmt.Sprintf("zz: {%s: %s}\n", k, v) + tail
+	case 2:
+		return fmt.Sprintf("zz -> yy\n(zz -> yy)[0].%s: %s\n", k, v) + tail
+	}
+	return fmt.Sprintf("layers: {x: {zz.%s: %s}}\nyy\nscenarios: {s: {z}}\n", k, v)
+}
+
 func valueShapes(r *rand.Rand) string {
-	shapes := []string{"x", "1", "true", "null", "{a: b}", "{a: {b: c}}", "[1; 2]", "[]", "{}", "\"\"", "${nope}", "*", "|md x|", "@nofile", "...@nofile"}
-	keys := []string{"shape", "label", "style", "style.fill", "style.opacity", "style.3d", "icon", "link", "tooltip", "near", "width", "height", "top", "left", "direction",
-		"grid-rows", "grid-columns", "grid-gap", "class", "classes", "vars", "constraint", "source-arrowhead", "target-arrowhead", "label.near", "icon.near", "layers", "scenarios", "steps"}
-	cfg := []string{"theme-id", "dark-theme-id", "pad", "sketch", "center", "layout-engine", "theme-overrides", "dark-theme-overrides", "data", "theme-overrides.N1", "theme-overrides.B1", "dark-theme-overrides.AA2", "unknown-key"}
+	shapes, keys, cfg := vsShapes, vsKeys, vsCfg
 	var sb strings.Builder
 	for k := 0; k < 1+r.Intn(3); k++ {
 		switch r.Intn(4) {
